@@ -9,9 +9,10 @@ from . import common as K
 ID = "C11"
 REACH_TARGETS = [('runtime.ManagedFilter.tick', 'formak.runtime:ManagedFilter.tick'), ('runtime.ManagedFilter._process_model', 'formak.runtime:ManagedFilter._process_model')]
 LEVEL = "exploration"
-RULE = ("tick histories (1-12 ticks, 0-5 readings per tick with timestamps before/equal/after the held and the "
-        "output time, duplicates, any order; with and without readings argument; with/without control and "
-        "calibration).  log units: append-only log filter under the real Python runtime and under the real "
+RULE = ("tick histories (1-12 ticks, one in ten 40-120 ticks; 0-5 readings per tick, bursts of 10-30; timestamps "
+        "before/equal/after the held and the output time, duplicates, any order; the previous tick's reading "
+        "objects handed over again; readings as list, tuple, generator or iterator; clocks starting at 0, +-1e2, "
+        "1e5, 3.2e7 and 1.7e9 s; with and without readings argument; with/without control and calibration).  log units: append-only log filter under the real Python runtime and under the real "
         "ManagedFilter.h (recording Impl, ASan/UBSan); each returned log must equal held log + [move, update]* + "
         "move-to-output with the updates in the order given, control/calibration forwarded, and the next tick must "
         "start from the log held after the last reading; Python and C++ call sequences are compared.  real units: a "
